@@ -1,6 +1,7 @@
 from __future__ import annotations
 
 import logging
+import multiprocessing.connection
 import threading
 from abc import ABC, abstractmethod
 from collections.abc import Sequence
@@ -252,7 +253,11 @@ class ProcessServlet(Servlet):
                 },
             )
             p.start()
-            name = q_out.get()
+            # Wait for the worker's handshake, or for its death: a process that dies hard
+            # while it initializes (killed, `os._exit`, failing to unpickle its arguments
+            # before `Worker.run` starts) never sends anything.
+            multiprocessing.connection.wait([q_out._reader, p.sentinel])
+            name = None if q_out.empty() else q_out.get()
             if name is None:
                 try:
                     p.join()  # this will raise exception b/c worker __init__ failed
